@@ -190,3 +190,22 @@ func FieldPath(info *types.Info, e ast.Expr) (root *types.Var, path string) {
 	}
 	return nil, ""
 }
+
+
+// DefPosIn returns the position of the identifier that declares v inside root
+// (on an inlined declaration the syntax has positions of its own, which differ
+// from the object's recorded position); v.Pos() when it is not declared there.
+func DefPosIn(info *types.Info, root ast.Node, v *types.Var) token.Pos {
+	if v == nil {
+		return token.NoPos
+	}
+	pos := v.Pos()
+	found := false
+	ast.Inspect(root, func(n ast.Node) bool {
+		if id, ok := n.(*ast.Ident); ok && !found && info.Defs[id] == types.Object(v) {
+			pos, found = id.Pos(), true
+		}
+		return true
+	})
+	return pos
+}
